@@ -107,7 +107,20 @@ def random_layer(ctx, ncases):
         else:
             group = None
         where = eg.expr('bool', 2) if rng.chance(1, 2) else None
-        sel = ast.Select(targets, ast.Table('t'), where, group, None, None, None, None)
+        if explicit and rng.chance(1, 3):
+            # an invisible key that looks like a visible key expression but differs in a literal: a key of its own
+            cands = [t.expression for t in targets if not isinstance(t.expression, ast.Column) and t.name and t.name.startswith('k')]
+            if cands:
+                near = gen_sql.perturb_constant(rng.choice(cands), rng)
+                if near is not None:
+                    group = ast.GroupBy(list(group.columns) + [near], group.having)
+                    ctx.count('near-copy-key')
+        frm = ast.Table('t')
+        if rng.chance(1, 4):
+            # the same statement over a FROM subquery delivering the table: invisible keys are subquery columns
+            frm = ast.Select([ast.Target(ast.Column(n_), None) for n_, t_ in gen_sql.STD_SCHEMA], ast.Table('t'), None, None, None, None, None, None)
+            ctx.count('from-subquery')
+        sel = ast.Select(targets, frm, where, group, None, None, None, None)
         SqlCase([table], sel, name='random-explicit' if explicit else 'random-implicit').check(
             ctx, nontrivial=len(table.rows) >= 2)
         ctx.count('explicit' if explicit else 'implicit')
@@ -116,7 +129,7 @@ def random_layer(ctx, ncases):
 
 def run(ctx):
     small_layer(ctx)
-    random_layer(ctx, 3000 if ctx.thorough() else 600)
+    random_layer(ctx, 60000 if ctx.thorough() else 600)
 
 
 def replay(ctx, body):
